@@ -1911,7 +1911,7 @@ def m_it_product(ctx, cty, a):
     return t
 
 
-@model(IT + "step_by", IT + "cycle")
+@model(IT + "cycle")
 def m_it_unsupported(ctx, cty, a):
     raise Inconclusive("iterator adaptor %s" % cty.c[0][0])
 
